@@ -40,6 +40,8 @@ func runC08(p *Prog, r *Report) {
 	armStoresRule(p, r, "C08.R6", "config.parseMethodLine", "enum:map", "enum:transform")
 	precedenceRule(p, r, "C08.R10", "Enum")
 	underlyingEnumRefusalRule(p, r, "C08.R12")
+	anyPatternRule(p, r, "C08.R14")
+	enumKindMaskRule(p, r, "C08.R15")
 	relativePackageRule(p, r, "C08.R13")
 	matchesCompleteRule(p, r, "C08.R11", "two detected enums are always converted by the name-driven switch, never by the plain basic conversion", "builder.(*Enum).Matches")
 }
